@@ -234,6 +234,24 @@ def c13(run, vc):
                       assumptions=["symbolic model; r = Hr(alpha, SHA256(M)) is an atom determined by (alpha, M)", "independent open on bls12_381_plus + SHA-256 + SHAKE128 + hand-written HKDF"])
 
 
+# ------------------------------------------------------------------------------------ C14
+def c14(run, vc):
+    tier = run.tier
+    tables = _prep(run, vc)
+    cfg = "MC_ElGamal_%s.cfg" % tier
+    r, bad = _tlc_stage(run, vc, "MC_ElGamal", cfg, [("EGEncrypt", "Ok"), ("EGEncrypt", "Err"), "EGDecrypt", ("EGVerify", "Ok"), ("EGVerify", "Err"),
+                                                       ("EGVerifyDecrypt", "Ok"), ("EGVerifyDecrypt", "Err"), ("EGShares", "Ok"), ("EGShares", "Err")], timeout=7200)
+    if bad:
+        return run.finish()
+    vecs = r["vectors"]
+    _sample(run, [v for v in vecs if v["act"] in ("EGVerify", "EGDecrypt")])
+    s = vc.replay(vecs, "c14", tables, profiles="5")
+    run.add_replay(s, "ElGamal encrypt / homomorphic sums / decrypt / proofs under every single-component perturbation / verify-and-decrypt / t-of-n decryption", vecs,
+                   lambda v: bool(v.get("touched")) or v.get("rightkey") is False or v.get("rightpk") is False or (v["act"] == "EGShares" and not v.get("ideal")))
+    return run.finish(rule="vectors = every transition of the ElGamal model: recipient keys x plaintexts {1, r-1, ..} x sums of <=MaxSum ciphertexts x decrypting key; proofs x every perturbation {add, negate, swap with another proof's, zero/identity} of each of (c1, c2, message_proof, blinder_proof, challenge) x verifier key recipes; threshold decryption for all (t,n) and share sequences; derived = all six addition forms, reference verdict, reference-made proofs accepted by the library",
+                      assumptions=["symbolic model; Fiat-Shamir challenge is a random oracle", "independent transcript on merlin with labels/order from spec/Tags.tla"])
+
+
 # ------------------------------------------------------------------------------------ traces
 def _trace_signet(run, vc, tables, name, events, mix="all"):
     """implementation -> spec: record a random walk of the real library, validate with TLC."""
@@ -242,4 +260,4 @@ def _trace_signet(run, vc, tables, name, events, mix="all"):
     vc.record_and_validate(run, "signet", "Trace_SigNet", name, events, tables, mix=mix)
 
 
-CHECKS = {"C01": c01, "C02": c02, "C06": c06, "C07": c07, "C08": c08, "C09": c09, "C11": c11, "C12": c12, "C13": c13}
+CHECKS = {"C01": c01, "C02": c02, "C06": c06, "C07": c07, "C08": c08, "C09": c09, "C11": c11, "C12": c12, "C13": c13, "C14": c14}
